@@ -408,3 +408,23 @@ impl Session {
         }
     }
 }
+
+/// Replaces every random handle name by `handle:#` (for comparing two executions).
+pub fn mask_handles(s: &str) -> String {
+    let mut out = String::with_capacity(s.len());
+    let mut rest = s;
+    while let Some(p) = rest.find("handle:") {
+        out.push_str(&rest[..p]);
+        let tail = &rest[p + 7..];
+        let n = tail.chars().take_while(|c| c.is_ascii_alphanumeric()).count();
+        if n == 20 {
+            out.push_str("handle:#");
+            rest = &tail[20..];
+        } else {
+            out.push_str("handle:");
+            rest = tail;
+        }
+    }
+    out.push_str(rest);
+    out
+}
